@@ -257,6 +257,17 @@ def monitors(M, T, r):
                     ok = False
                 if not ok:
                     bad.append(dict(what='confusion_matrix', obs=obs, sim=sim, ncat=given)); break
+    # ---- binary scores on concrete integer tables (the proof treats the counts as reals: integer-width effects are only visible here)
+    nb = 0
+    for tn, fp, fn_, tp in itertools.product((1, 2, 5, 9), repeat=4):
+        nb += 1; n += 1
+        sc, _ = M.binary([[tn, fp], [fn_, tp]])
+        N = tn + fp + fn_ + tp; theta = tp * tn / (fp * fn_)
+        exp = dict(hitrate=tp / (tp + fn_), falsealarm=fp / (fp + tn), precision=tp / (tp + fp), accuracy=(tp + tn) / N, bias=(tp + fp) / (tp + fn_), F1=2 * tp / (2 * tp + fp + fn_),
+                   MCC=(tp * tn - fp * fn_) / math.sqrt((tp + fp) * (tp + fn_) * (tn + fp) * (tn + fn_)), LOR=math.log(theta), ORSS=(theta - 1) / (theta + 1))
+        wrong = [k for k, v in exp.items() if k in sc and not (np.isfinite(sc[k]) and abs(float(sc[k]) - v) <= 1e-9 * max(1.0, abs(v)))]
+        if wrong:
+            bad.append(dict(what='binary scores %s of the table [[%d, %d], [%d, %d]]' % (wrong, tn, fp, fn_, tp), ncat=2, observed={k: float(sc[k]) for k in wrong}, expected={k: exp[k] for k in wrong})); break
     # ---- scores with transforms, excludenull, Spearman, ensemble statistic (floats, against textbook formulas)
     from scipy.stats import spearmanr
     with warnings.catch_warnings():
